@@ -285,7 +285,7 @@ impl World for SemWorld {
         m
     }
 
-    fn pollable(&self, f: u32) -> Option<u32> {
-        self.futs.get(&f).filter(|x| !x.done).map(|x| x.last_waker)
+    fn repoll_op(&self, f: u32) -> Option<String> {
+        self.futs.get(&f).filter(|x| !x.done).map(|x| format!("poll {} {}", f, x.last_waker))
     }
 }
